@@ -438,3 +438,22 @@ Proof.
   split; [exact (proj2 (write_frame be off len v blob b' H))|].
   intros off2 len2 Hd. exact (view_write_disjoint be off len v blob b' off2 len2 H Hd).
 Qed.
+
+(** reads and writes of a derived attribute are the view of the blob on every access path *)
+Theorem derived_any_access_path a defs i d r s :
+  defs_ok defs -> rinv defs s ->
+  nth_error defs i = Some d -> nth_error (regs s) i = Some r ->
+  reg_get_via a defs i s = reg_get_via ByKey defs i s /\
+  (forall v, reg_set_via a defs i v s = reg_set_via ByKey defs i v s) /\
+  let '(st, v, _) := reg_get_via a defs i s in
+  if g_isset r
+  then match spec_view d s with
+       | Some x => st = KDUMP_OK /\ v = x
+       | None => st <> KDUMP_OK
+       end
+  else st <> KDUMP_OK.
+Proof.
+  intros Hok Hi Hd Hr. split; [reflexivity|]. split; [reflexivity|].
+  unfold reg_get_via. pose proof (reg_get_view defs i d r s Hok Hi Hd Hr) as H.
+  destruct (reg_get defs i s) as [[st v] s']. exact (proj1 H).
+Qed.
